@@ -1201,8 +1201,12 @@ impl<'a, 'b, 'ast> Visit<'ast> for Collector<'a, 'b> {
                     let before = rw.section(&format!("loop {idx} before")).map(|t| format!("proof {{ //@p\n{}\n}} //@p\n", mark(t))).unwrap_or_default();
                     let end = rw.section(&format!("loop {idx} end")).map(|t| format!("proof {{ //@p\n{}\n}} //@p\n", mark(t))).unwrap_or_default();
                     let after = rw.section(&format!("loop {idx} after")).map(|t| format!("proof {{ //@p\n{}\n}} //@p\n", mark(t))).unwrap_or_default();
-                    // Iterator::filter passes `&Self::Item` to the predicate
-                    let text = format!("({{ let mut __it{idx} = ({it}).into_iter(); let mut __cnt{idx} = 0usize;\n{before}loop\n{inv}\n{{ match __it{idx}.next() {{ Some(__item{idx}) => {{ let {pat} = &__item{idx}; if {body} {{ __cnt{idx} += 1; }}\n{end} }} None => {{ break; }} }} }}\n{after} __cnt{idx} }})");
+                    // Iterator::filter passes `&Self::Item` to the predicate; a tuple pattern binds references to the item's fields
+                    let bind = match &cl.inputs[0] {
+                        syn::Pat::Tuple(t) => t.elems.iter().enumerate().filter_map(|(k, p)| match p { syn::Pat::Ident(pi) => Some(format!("let {} = &__item{idx}.{k};", pi.ident)), _ => None }).collect::<Vec<_>>().join(" "),
+                        _ => format!("let {pat} = &__item{idx};"),
+                    };
+                    let text = format!("({{ let mut __it{idx} = ({it}).into_iter(); let mut __cnt{idx} = 0usize;\n{before}loop\n{inv}\n{{ match __it{idx}.next() {{ Some(__item{idx}) => {{ {bind} if {body} {{ __cnt{idx} += 1; }}\n{end} }} None => {{ break; }} }} }}\n{after} __cnt{idx} }})");
                     rw.count("R21");
                     let sp = e.span().byte_range();
                     self.edits.push((sp.start, sp.end, text));
